@@ -93,6 +93,18 @@ def main():
             for m in (nn.Linear(5, 3), nn.Conv1d(2, 3, 3), nn.Conv2d(2, 2, (2, 3)), nn.BatchNorm1d(3), nn.Neuron(4)):
                 for p in m.parameters():
                     put(p.data)
+            try:
+                # degenerate but legal widths: every parameter is still a function of the seed (never of what memory happened to hold:
+                # unrelated buffers with other contents are allocated and released right before, differently in every repeat and process)
+                persist["rep"] = persist.get("rep", 0) + 1
+                val_ = float(persist["rep"] * 7 + int(os.environ.get("VERIF_JUNK", "0")) % 1000)
+                for mk in (lambda: nn.Linear(0, 3), lambda: nn.Linear(4, 0), lambda: nn.Linear(1, 1), lambda: nn.Linear(0, 16)):
+                    junk = [np.full(n_, val_, dtype=np.float32) for n_ in (3, 3, 16, 16, 12, 4, 1, 64) for _ in range(8)]; del junk
+                    m = mk()
+                    for p in m.parameters():
+                        put(p.data)
+            except Exception:
+                put(np.zeros(1))
         elif kind == "dropout":
             d = nn.Dropout(spec.get("p", 0.4))
             x = sg.ones(6, 7, requires_grad=True)
